@@ -178,7 +178,7 @@ class Pipeline:
         cmd = ['cbmc', os.path.join(d, 'module.c'), os.path.join(VT, 'stubs', 'base.c')]
         cmd += [os.path.join(VT, 'stubs', s) for s in q.stubs]
         cmd += ['--function', q.entry, '--unwind', str(q.unwind), '--drop-unused-functions', '--no-standard-checks',
-                '--no-malloc-may-fail', '--json-ui', '--verbosity', '8']
+                '--no-malloc-may-fail', '--json-ui', '--verbosity', '8', '--object-bits', '12']
         for us in q.unwindset: cmd += ['--unwindset', us]
         if q.silent_throw: cmd += ['-DVT_THROW_ENDS_PATH_SILENTLY']
         if q.new_cap: cmd += ['-DVT_NEW_CAP=%d' % q.new_cap]
@@ -299,7 +299,7 @@ class Pipeline:
                     f.write('__attribute__((weak)) void %s(void) { vt_native_fatal("unmodelled extern called: %s"); }\n' % (n, n))
                 for n in meta['extern_globals']:
                     if not re.fullmatch(r'[A-Za-z_][A-Za-z0-9_]*', n) or n in ('vt_thrown',): continue
-                    f.write('__attribute__((weak)) char %s[256];\n' % n)
+                    f.write('__attribute__((weak)) %schar %s[256];\n' % ('__thread ' if n in meta.get('extern_tls', []) else '', n))
             return out
         return self.once(('weak', meta['dir']), build)
 
@@ -448,6 +448,16 @@ class Pipeline:
                     rec['verdict'] = 'holds'; rec['note'] += ' (abstract query failed spuriously; exact-arithmetic query proved the assertions)'
             except BuildError as e:
                 rec['exact_fallback'] = dict(status='build-error')
+        if rec['verdict'] == 'spurious':
+            try:
+                ctext = open(os.path.join(meta['dir'], 'module.c')).read()
+            except OSError:
+                ctext = ''
+            abstracted = bool(q.uf) or len(re.findall(r'\bvt_sqrt\(', ctext)) > 1 or 'vt_fmod(' in ctext
+            if abstracted and all('desynchronised' not in (x.get('why') or '') for x in rec.get('spurious', [])):
+                # a counterexample that exists only under a contract stub / uninterpreted float operation: the abstraction is too
+                # weak to prove the assertion - inconclusive, not an encoding error and not a violation
+                rec['verdict'] = 'undecided'; rec['note'] += ' abstraction too weak: counterexample not reproducible with the real sqrt/fmod/float operations'
         if q.validate and rec['verdict'] in ('holds', 'candidate', 'violation', 'known', 'spurious'):
             try:
                 rec['translator_validation'] = self.validate_translation(q, meta)
@@ -480,8 +490,10 @@ class Pipeline:
             out = rr['out']
             item = dict(property=p['property'], description=desc, replay=outdir,
                         inputs=[(fn, hex(v)) for fn, v in inputs[:40]])
-            if 'STUB-DIVERGENCE' in out:
-                # second attempt: restrict contract stubs to the region where they pin the real value exactly
+            reproduced = (not is_mem) and ('STUB-DIVERGENCE' not in out) and ('DESYNC' not in out) and (
+                ('\nA 0 ' + desc) in ('\n' + out) or ((desc in ('exception thrown', 'pure virtual call', 'std::terminate') or desc.startswith('throw ')) and ('FATAL ' + desc) in out))
+            if not is_mem and not reproduced:
+                # second attempt: restrict contract stubs (fmod, sqrt) to the region where they pin the real value exactly
                 tr2 = self.run_cbmc(q, meta, witness=False, trace=True, prop=p['property'], timeout=q.timeout * 2, extra=('-DVT_STUB_EXACT_REGION',))
                 tp2 = [x for x in tr2['props'] if x['property'] == p['property'] and x['status'] == 'FAILURE' and 'trace' in x]
                 ok2 = False
@@ -492,7 +504,9 @@ class Pipeline:
                         item['inputs'] = [(fn, hex(v)) for fn, v in inputs2[:40]]; item['note'] = 'found in the exact region of the contract stubs'
                         confirmed.append(item); ok2 = True
                 if not ok2:
-                    item['why'] = 'counterexample relies on a stub value the real function does not return'; spurious.append(item)
+                    item['why'] = ('counterexample relies on a stub value the real function does not return' if 'STUB-DIVERGENCE' in out
+                                   else 'replay desynchronised' if 'DESYNC' in out else 'assertion did not fail in native replay (also not within the exact region of the contract stubs)')
+                    spurious.append(item)
             elif 'DESYNC' in out:
                 item['why'] = 'replay desynchronised'; spurious.append(item)
             elif is_mem:
